@@ -280,6 +280,9 @@ func (ex *Exec) mPow(x, a F) F {
 				p := x.T
 				for k := int64(1); k < m; k++ {
 					p = tb.RMul(p, x.T)
+					if k%2 == 1 && p.op == "rmul" {
+						ex.axiom("sq"+strconv.Itoa(p.id), tb.RLe(tb.Rat(ratZero), p))
+					}
 				}
 				if n > 0 {
 					return F{T: p, D: d}
